@@ -83,6 +83,13 @@ def run(res, tier, seed=13):
             for a in ("min", "max", "controller", "module"):
                 if hasattr(mp, a):
                     setattr(mp, a, 3)
+        # keywords the constructor does not know (typos): ignored or refused, they say nothing about the class
+        for kwname in ("transpoze", "no_such_keyword", "volume_", "Volume"):
+            try:
+                cls(**{kwname: 12})
+                res.count("unknown_keyword_constructions")
+            except Exception:
+                res.count("unknown_keyword_constructions_raised")
         # failed constructions: a keyword of the wrong type for every option / one controller
         for o in t.options:
             for bad in (None, "x", 1.5):
